@@ -169,6 +169,8 @@ pub fn record(seed: u64, tier: &str, out_path: &str, workdir: &str) {
             }
         }
         if rng.chance(1, 12) { w["port"] = json!(ABSENT); }
+        // the TCP health-check port may carry the same number as the UDP port
+        if rng.chance(1, 15) && w["port"].as_i64().unwrap() != ABSENT { w["health_check_port"] = w["port"].clone(); }
         if rng.chance(1, 12) && src == "file" { w["multidoc"] = json!(true); }
         if rng.chance(1, 10) { w["seed"] = json!(*rng.pick(&["short", "long", "nonhex", "missing", "odd", "digits", "zeros", "lzdigits", "shortdigits", "zero1"])); }
         if rng.chance(1, 20) { w["interface"] = json!("missing"); }
